@@ -36,7 +36,7 @@ type drainingReadCloser struct {
 
 func (d *drainingReadCloser) Read(p []byte) (n int, err error) {
 	n, err = d.rdr.Read(p)
-	if err == io.EOF || n == 0 {
+	if err == io.EOF || (n == 0 && len(p) > 0) {
 		atomic.StoreUint32(&d.seenEOF, 1)
 	}
 	return
